@@ -504,6 +504,12 @@ int main(int argc, char **argv)
           if (use_str) cfg->readString(std::string(a1 ? a1 : "")); else cfg->readString(a1 ? a1 : "");
           printf("ok");
         }
+        else if (COP("read_string_ioerr", 3)) {
+          /* a text that includes a file which opens but cannot be read; w[2] names it for the model only */
+          a1 = unhex(w[3], NULL); show_freed = 1; cmode = C_ERR;
+          cfg->readString(a1 ? a1 : "");
+          printf("ok");
+        }
         else if (COP("read_stream", 2)) {
           size_t len; a1 = unhex(w[2], &len); show_freed = 1; cmode = C_ERR;
           FILE *f = len ? fmemopen(a1, len, "r") : fopen("/dev/null", "r");
